@@ -194,7 +194,7 @@ class C01(Check):
         "step the dump is compared with harness-held deep copies; non-trivial = at least one mutation of a held "
         "reference executed after a write; distinct = (backend, op-kind sequence)"
     )
-    expected_probes = ["mutate_event_passed_in", "mutate_event_handed_out", "mutate_metadata_passed_in", "mutate_metadata_handed_out", "restart_clean", "restart_dirty", "bulk_insert", "events_read_back", "offset_nonzero", "us_not_ms_aligned", "year_2100", "nested_data"]
+    expected_probes = ["mutate_event_passed_in", "mutate_event_handed_out", "mutate_metadata_passed_in", "mutate_metadata_handed_out", "restart_clean", "restart_dirty", "bulk_insert", "events_read_back", "offset_nonzero", "us_not_ms_aligned", "year_2100", "nested_data", "bulk_same_object_twice"]
     assumptions = ["reads issued by the harness after every step flush the lazily-committing store, so a dirty restart in this check loses nothing (crash behaviour is C06's subject)"]
 
     def make_world(self, run, rundir):
@@ -208,7 +208,7 @@ class C01(Check):
         nb = r.choice([1, 1, 2])
         buckets = gen.bucket_ids(r, nb)
         lat = gen.lattice(rs["lat"])
-        cfg = {"lat": lat, "alphabet": 3, "bulk_max": r.choice([3, 8, 40, 120]), "upsert_p": 0.1, "never_p": 0.1, "wild": True, "wild_p": r.choice([0.5, 0.9, 1.0]), "wild_meta": True}
+        cfg = {"lat": lat, "alphabet": 3, "bulk_max": r.choice([3, 8, 40, 120]), "upsert_p": 0.1, "never_p": 0.1, "dup_p": r.choice([0.0, 0.0, 0.15]), "wild": True, "wild_p": r.choice([0.5, 0.9, 1.0]), "wild_meta": True}
         steps = actors.creates(rs["meta"], buckets, cfg)
         parties = []
         for k, b in enumerate(buckets):
